@@ -160,3 +160,12 @@ MUTANTS["C17"] = [
     ("nested-defaults-dropped-again", "annet/implicit.py", '                implicit_config_tree[row] = config(odict(), rule["children"])', "                implicit_config_tree[row] = odict()"),
     ("default-added-when-row-present-as-prefix", "annet/implicit.py", "            if not any(matched_lines) and row not in config_tree:", "            if not any(l == row for l in matched_lines) and row not in config_tree:"),
 ]
+
+MUTANTS["C19"] = [
+    ("prio-less-than", "annet/generators/result.py", "                    result.prio > self.entire_results[result.path].prio:", "                    result.prio < self.entire_results[result.path].prio:"),
+    ("reload-attached-when-disabled", "annet/api/__init__.py", "                    if enable_reload:\n                        reload_cmds[file] = cmds.encode()", "                    if True:\n                        reload_cmds[file] = cmds.encode()"),
+    ("default-prio-zero-compare", "annet/generators/result.py", "            if result.path not in self.entire_results or \\\n                    result.prio > self.entire_results[result.path].prio:", "            if result.prio > getattr(self.entire_results.get(result.path), \"prio\", 0):"),
+    ("force-skips-unchanged", "annet/api/__init__.py", "                if diff_content or force_reload:", "                if diff_content or (force_reload and old_files.get(file) != file_content_or_json_cfg):"),
+    ("safe-filter-ignored", "annet/generators/result.py", "            if not safe or gr.is_safe:", "            if not safe or gr.is_safe or gr.prio > 100:"),
+    ("uploads-old-content", "annet/api/__init__.py", "                    upload_files[file] = file_content.encode()", "                    upload_files[file] = (file_content if len(file_content) < 12 else file_content.rstrip(\"\\n\")).encode()"),
+]
